@@ -11,6 +11,7 @@ namespace Bct.C02
 open Bct Bct.Modularity Finset
 
 variable {n : ℕ}
+variable {g0 : GState}
 
 /-- **relabel_range** — `relabel c = np.unique(c, return_inverse=True)[1] + 1` takes exactly the values
 `1..k`, `k` the number of distinct labels of `c`, and preserves co-membership. -/
@@ -68,37 +69,16 @@ theorem aggregate_Q_und (W : RMat n) (γ : ℚ) (hW : Symm W) (m : Lab n) (c' : 
 
 /-- **modularity_dir_given** — `modularity_dir(A, gamma, kci)` returns the directed modularity of `kci`. -/
 theorem modularity_dir_given {α : Type} [DecidableEq α] (W : RMat n) (γ : ℚ) (c : Fin n → α) :
-    modularityDirGiven W γ c = Qdir W γ c := by
-  unfold modularityDirGiven Qdir
-  rw [Qobj_eq]
-  simp only [fsum_eq]
-  have h1 : ∀ i j, (if c i = c j then ((Bmod W γ).get i j + (Bmod W γ).get j i) / (2 * total W) else 0)
-      = ((if c i = c j then (Bmod W γ).get i j else 0) + (if c j = c i then (Bmod W γ).get j i else 0)) / (2 * total W) := by
-    intro i j
-    by_cases h : c i = c j
-    · simp [h]
-    · have h' : ¬ c j = c i := fun e => h e.symm
-      simp [h, h']
-  simp only [h1, ← Finset.sum_div, Finset.sum_add_distrib]
-  rw [Finset.sum_comm (f := fun i j => if c j = c i then (Bmod W γ).get j i else 0)]
-  rw [← two_mul, mul_div_mul_left _ _ (two_ne_zero)]
+    modularityDirGiven W γ c = Qdir W γ c := modularityDirGiven_eq W γ c
 
 /-- **modularity_und_given** — for symmetric `A`, `modularity_und(A, gamma, kci)` returns the modularity of `kci`. -/
 theorem modularity_und_given {α : Type} [DecidableEq α] (W : RMat n) (γ : ℚ) (hW : Symm W) (c : Fin n → α) :
-    modularityUndGiven W γ c = Qund W γ c := by
-  unfold modularityUndGiven Qund
-  rw [Qobj_eq]
-  simp only [fsum_eq, Finset.sum_div]
-  refine Finset.sum_congr rfl (fun i _ => Finset.sum_congr rfl (fun j _ => ?_))
-  simp only [Fin.getElem_fin, Vector.getElem_ofFn, Fin.eta, Bund_get, hW.colSum_eq_rowSum]
-  split_ifs
-  · ring
-  · simp
+    modularityUndGiven W γ c = Qund W γ c := modularityUndGiven_eq W γ hW c
 
 /-- **modularity_finetune_und** — labels are ranks (so exactly `1..k`), reported `q` is the modularity of
 the returned partition (see `Bct.C07.finetune_und_monotone` for the other half). -/
 theorem finetune_und_consistent (W : RMat n) (γ : ℚ) (c0 : Fin n → ℤ) (ds : List ℕ) (out : Out n)
-    (hW : Symm W) (hs : 0 < total W) (h : finetuneUnd W γ c0 ds = .ok out) :
+    (hW : Symm W) (hs : 0 < total W) (h : finetuneUnd W γ c0 ds g0 = .ok out) :
     ∃ (c' : Lab n) (q : ℚ) (mfin : Fin n → ℤ), out.levels = [(c', q)] ∧
       (∀ i : Fin n, (c'[i] : ℕ) + 1 = relabel mfin i) ∧ q = Qund W γ (labOf c') := by
   obtain ⟨c', q, mfin, h1, h2, h3, _⟩ := finetuneUnd_spec W γ c0 ds out hW hs h
@@ -107,7 +87,7 @@ theorem finetune_und_consistent (W : RMat n) (γ : ℚ) (c0 : Fin n → ℤ) (ds
 /-- **modularity_louvain_und** — every hierarchy level is a consistent pair: the reported `q[h]` is the
 modularity of `ci[h]` on the original network (the first entry of `out.levels` is the sentinel level 0). -/
 theorem louvain_und_levels_consistent (W : RMat n) (γ : ℚ) (ds : List ℕ) (out : Out n)
-    (hW : Symm W) (hs : 0 < total W) (h : louvainUnd W γ ds = .ok out) :
+    (hW : Symm W) (hs : 0 < total W) (h : louvainUnd W γ ds g0 = .ok out) :
     ∀ p ∈ out.levels, p = (idLab n, -1) ∨ p.2 = Qund W γ (labOf p.1) := by
   intro p hp
   rcases (louvainUnd_spec W γ ds out hW hs h).1 p hp with h' | h'
@@ -118,7 +98,7 @@ theorem louvain_und_levels_consistent (W : RMat n) (γ : ℚ) (ds : List ℕ) (o
 reported `q` is the objective of the returned partition (`/ s` unless renormalised), the objective being
 `Σ_{ci=cj}` of the objective matrix of that type (`objMatrixRaw`; symmetrising it does not change the sum). -/
 theorem community_louvain_consistent (W : RMat n) (γ : ℚ) (obj : Objective n) (c0 : Fin n → ℤ) (ds : List ℕ) (out : Out n)
-    (h : communityLouvain W γ obj c0 ds = .ok out) :
+    (h : communityLouvain W γ obj c0 ds g0 = .ok out) :
     ∀ p ∈ out.levels,
       p.2 = (if obj.renorm then Qobj (objMatrixRaw W γ obj) (labOf p.1) else Qobj (objMatrixRaw W γ obj) (labOf p.1) / total W) := by
   intro p hp
@@ -154,9 +134,9 @@ theorem modularity_und_sign_given (t : QType) (W : RMat n) (hW : Symm W) (c0 : F
 /-- **signed optimisers** — `modularity_finetune_und_sign`, `modularity_probtune_und_sign` and every level of
 `modularity_louvain_und_sign` report the signed modularity (given `qtype`, `γ`) of the partition they return. -/
 theorem sign_routines_consistent (t : QType) (W : RMat n) (γ : ℚ) (hW : Symm W) (c0 : Fin n → ℤ) (ds : List ℕ) (out : Out n) :
-    (finetuneSign t W γ c0 ds = .ok out → ∀ p ∈ out.levels, p.2 = Qsign t W γ (labOf p.1)) ∧
-    (∀ pr : ℚ, probtuneSign t W γ pr c0 ds = .ok out → ∀ p ∈ out.levels, p.2 = Qsign t W γ (labOf p.1)) ∧
-    (louvainSign t W γ ds = .ok out → ∀ p ∈ out.levels, p = (idLab n, 0) ∨ p.2 = Qsign t W γ (labOf p.1)) := by
+    (finetuneSign t W γ c0 ds g0 = .ok out → ∀ p ∈ out.levels, p.2 = Qsign t W γ (labOf p.1)) ∧
+    (∀ pr : ℚ, probtuneSign t W γ pr c0 ds g0 = .ok out → ∀ p ∈ out.levels, p.2 = Qsign t W γ (labOf p.1)) ∧
+    (louvainSign t W γ ds g0 = .ok out → ∀ p ∈ out.levels, p = (idLab n, 0) ∨ p.2 = Qsign t W γ (labOf p.1)) := by
   refine ⟨fun h p hp => (finetuneSign_spec t W γ c0 ds out hW h p hp).1,
     fun pr h p hp => probtuneSign_spec t W γ pr c0 ds out hW h p hp, fun h p hp => ?_⟩
   rcases louvainSign_spec t W γ ds out hW h p hp with h' | h'
@@ -166,7 +146,7 @@ theorem sign_routines_consistent (t : QType) (W : RMat n) (γ : ℚ) (hW : Symm 
 /-- **modularity_finetune_dir** reports the directed modularity of what it returns, for every (also
 asymmetric) `W`. -/
 theorem finetune_dir_consistent (W : RMat n) (γ : ℚ) (c0 : Fin n → ℤ) (ds : List ℕ) (out : Out n)
-    (h : finetuneDir W γ c0 ds = .ok out) : ∀ p ∈ out.levels, p.2 = Qdir W γ (labOf p.1) :=
+    (h : finetuneDir W γ c0 ds g0 = .ok out) : ∀ p ∈ out.levels, p.2 = Qdir W γ (labOf p.1) :=
   finetuneDir_q W γ c0 ds out h
 
 /-- the built-in objectives of `community_louvain` are the named quality functions: `'modularity'` = `Qdir`
@@ -179,52 +159,57 @@ theorem community_louvain_objectives (W : RMat n) (γ : ℚ) (hs0 : total (posPa
   · rw [(objMatrixRaw_neg_eq W γ hs0).1, Qsign_eq]
   · rw [(objMatrixRaw_neg_eq W γ hs0).2, Qsign_eq]
 
-/-- **labels_range (single-level routines)** — `modularity_finetune_und/_dir/_und_sign`,
-`modularity_probtune_und_sign`, `modularity_und_sign` return `toLab` of their final module slots: labels
-`+1` are exactly `1..k`, `k` = number of distinct slots. -/
-theorem labels_range_single (c : Fin n → ℤ) (l : Lab n) (h : toLab c = .ok l) :
-    (∀ i : Fin n, 1 ≤ (l[i] : ℕ) + 1 ∧ (l[i] : ℕ) + 1 ≤ numLabels c) ∧
-    (∀ k, 1 ≤ k → k ≤ numLabels c → ∃ i : Fin n, (l[i] : ℕ) + 1 = k) := by
-  have hr := toLab_eq c l h
-  obtain ⟨_, h1, h2, _⟩ := relabel_range c
-  refine ⟨fun i => ?_, fun k hk1 hk2 => ?_⟩
-  · have := h1 i; simp only [relabel] at this; rw [hr i]; exact this
-  · obtain ⟨i, hi⟩ := h2 k hk1 hk2
-    exact ⟨i, by rw [hr i]; exact hi⟩
+/-- **labels_range (single-level routines)** — the label vector *returned by* the models of
+`modularity_finetune_und`, `modularity_finetune_dir`, `modularity_finetune_und_sign` and
+`modularity_probtune_und_sign` (every `qtype`, every probability `p`) is exactly `1..k`. -/
+theorem labels_range_single (W : RMat n) (γ : ℚ) (c0 : Fin n → ℤ) (ds : List ℕ) (out : Out n) :
+    (finetuneUnd W γ c0 ds g0 = .ok out → ∀ p ∈ out.levels, LabelsExact p.1) ∧
+    (finetuneDir W γ c0 ds g0 = .ok out → ∀ p ∈ out.levels, LabelsExact p.1) ∧
+    (∀ t : QType, finetuneSign t W γ c0 ds g0 = .ok out → ∀ p ∈ out.levels, LabelsExact p.1) ∧
+    (∀ (t : QType) (pr : ℚ), probtuneSign t W γ pr c0 ds g0 = .ok out → ∀ p ∈ out.levels, LabelsExact p.1) :=
+  single_level_labels_exact W γ c0 ds out
+
+/-- `modularity_und_sign(W, ci, qtype)` returns the given partition relabelled to exactly `1..k` -/
+theorem labels_range_und_sign_given (t : QType) (W : RMat n) (c0 : Fin n → ℤ) (c : Lab n) (q : ℚ)
+    (h : modularityUndSignGiven t W c0 = .ok (c, q)) : LabelsExact c := by
+  unfold modularityUndSignGiven at h
+  obtain ⟨l, hl, _⟩ := toLab_ok c0
+  simp only [hl, bind, Except.bind, pure, Except.pure, Except.ok.injEq, Prod.mk.injEq] at h
+  obtain ⟨rfl, _⟩ := h
+  exact toLab_labelsExact c0 l hl
 
 /-- **labels_range (level routines)** — every level of `modularity_louvain_und`,
 `modularity_louvain_und_sign` and `community_louvain` (labels are compositions of rank vectors along the
 hierarchy) carries labels that are exactly `1..k`: sweeps never leave the `nh` active super-nodes and the
 composite labelling stays onto them. -/
 theorem labels_range_levels (W : RMat n) (γ : ℚ) (ds : List ℕ) (out : Out n) :
-    (louvainUnd W γ ds = .ok out → ∀ p ∈ out.levels, LabelsExact p.1) ∧
-    (∀ t : QType, louvainSign t W γ ds = .ok out → ∀ p ∈ out.levels, LabelsExact p.1) ∧
-    (∀ (obj : Objective n) (c0 : Fin n → ℤ), communityLouvain W γ obj c0 ds = .ok out →
+    (louvainUnd W γ ds g0 = .ok out → ∀ p ∈ out.levels, LabelsExact p.1) ∧
+    (∀ t : QType, louvainSign t W γ ds g0 = .ok out → ∀ p ∈ out.levels, LabelsExact p.1) ∧
+    (∀ (obj : Objective n) (c0 : Fin n → ℤ), communityLouvain W γ obj c0 ds g0 = .ok out →
       ∀ p ∈ out.levels, LabelsExact p.1) :=
   levels_labels_exact W γ ds out
 
-/-- **recur_partition** — the spectral path of `modularity_und` / `modularity_dir` (`kci=None`): whatever
-the eigen-solver / sign-flipping oracle answers, the module list produced by the recursive bisection lists
-every node exactly once, has no empty module, and `ls2ci` turns it into labels exactly `1..k`.
-(The oracle itself — LAPACK — is not modelled; this skeleton is tied to bct only by the Python predicate
-`labels-1..k` on the real outputs.) -/
-theorem recur_partition (oracle : List (Fin n) → Option (Fin n → Bool)) (fuel : ℕ) (hn : 0 < n) :
-    (bisect oracle fuel (List.finRange n)).flatten.Perm (List.finRange n) ∧
-    (∀ part ∈ bisect oracle fuel (List.finRange n), part ≠ []) ∧
-    (∀ i, 1 ≤ ls2ci (bisect oracle fuel (List.finRange n)) i ∧
-      ls2ci (bisect oracle fuel (List.finRange n)) i ≤ (bisect oracle fuel (List.finRange n)).length) ∧
-    (∀ l, 1 ≤ l → l ≤ (bisect oracle fuel (List.finRange n)).length →
-      ∃ i, ls2ci (bisect oracle fuel (List.finRange n)) i = l) := by
-  obtain ⟨hp, hne⟩ := bisect_partition oracle fuel (List.finRange n)
-  have hne0 : List.finRange n ≠ [] := by
-    intro h; have := congrArg List.length h; simp at this; omega
-  obtain ⟨h1, h2⟩ := bisect_labels oracle fuel hn
-  exact ⟨hp, hne hne0, h1, h2⟩
+/-- **recur_partition** — the spectral path of `modularity_und` / `modularity_dir` (`kci=None`): for every list
+of eigen-solver decisions the module list produced by the recursive bisection lists every node exactly
+once and has no empty module. -/
+theorem recur_partition (fuel : ℕ) (m : List (Fin n)) (ds rest : List (Option (List Bool)))
+    (ls : List (List (Fin n))) (h : bisectL fuel m ds = .ok (ls, rest)) :
+    ls.flatten.Perm m ∧ (m ≠ [] → ∀ part ∈ ls, part ≠ []) := bisectL_partition fuel m ds rest ls h
+
+/-- **spectral path, whole run (`spectralRun` is what the driver's `spectral` op executes on the sign vectors
+recorded from the real call)** — for *every* oracle the returned labels are exactly `1..k` and the returned
+`q` is the modularity of the returned partition: `Qdir` for `modularity_dir`, `Qund` for `modularity_und`
+on symmetric input.  The eigen-solver (LAPACK) and the float sign-flipping loop are inputs, not modelled. -/
+theorem spectral_consistent (dir : Bool) (W : RMat n) (γ : ℚ) (ds : List (Option (List Bool)))
+    (ci : Fin n → ℕ) (q : ℚ) (left : ℕ) (hn : 0 < n) (h : spectralRun dir W γ ds = .ok (ci, q, left)) :
+    (∃ k, (∀ i, 1 ≤ ci i ∧ ci i ≤ k) ∧ ∀ l, 1 ≤ l → l ≤ k → ∃ i, ci i = l) ∧
+    (dir = true → q = Qdir W γ ci) ∧ (dir = false → Symm W → q = Qund W γ ci) :=
+  spectralRun_spec dir W γ ds ci q left hn h
 
 /-
 **Partial / not claimed.** `modularity_louvain_dir` is modelled *as coded* (defect D6: `W = W1` never assigned,
 `knm_i = W.copy()`); the full statement
-  `∀ W γ ds out, 0 < total W → louvainDir W γ ds = .ok out → ∀ p ∈ out.levels.drop 1, p.2 = Qdir W γ (labOf p.1)`
+  `∀ W γ ds out, 0 < total W → louvainDir W γ ds g0 = .ok out → ∀ p ∈ out.levels.drop 1, p.2 = Qdir W γ (labOf p.1)`
 is FALSE for it — `Bct.C07.louvain_dir_inconsistent_witness` proves the negation on a recorded input — and is
 an open known finding of the check.  What is proved for the directed family: `q_formula_dir` (the closed form
 the routine evaluates *would* be the modularity of the level's partition had it been applied to the
@@ -257,8 +242,10 @@ example : isOk (louvainSign .gja Sex 1 [0, 1, 2, 2, 1, 0, 0, 1, 1, 0, 0]) = true
 example : isOk (probtuneSign .smp Sex 1 (1/2) (fun _ => (0 : ℤ)) [0, 1, 2, 0, 1, 9007199254740991, 9007199254740991]) = true := by decide +kernel
 example : isOk (finetuneDir Dex 1 (fun _ => (0 : ℤ)) [0, 1, 2, 2, 1, 0]) = true := by decide +kernel
 example : isOk (modularityUndSignGiven .neg Sex (fun i => (i.val : ℤ) % 2)) = true := by decide +kernel
-example : (bisect (fun m : List (Fin 4) => if m.length = 4 then some (fun i => decide (i.val < 2)) else none) 4
-    (List.finRange 4)).length = 2 := by decide
+def specLabels {n : ℕ} : Except Err ((Fin n → ℕ) × ℚ × ℕ) → List ℕ
+  | .ok r => (List.finRange n).map r.1 | .error _ => []
+example : specLabels (spectralRun false Wex 1 [some [true, false, false], none, some [true, false], none, none]) = [1, 2, 3] := by
+  decide +kernel
 example : modularityDirGiven Dex 1 (fun i : Fin 3 => i.val % 2) = -8/25 := by decide +kernel
 
 end Bct.C02
